@@ -23,7 +23,7 @@
 #define MM (1L<<30)                 /* the modulus */
 #define mod_diff(x,y) (((x)-(y))&(MM-1)) /* subtraction mod MM */
 
-long ran_x[KK];                    /* the generator state */
+static _Thread_local long ran_x[KK];                    /* the generator state */
 
 #ifdef __STDC__
 	void ran_array(long aa[], int n)
@@ -56,9 +56,9 @@ long ran_x[KK];                    /* the generator state */
 /* after calling ran_start, get new randoms by, e.g., "x=ran_arr_next()" */
 
 #define QUALITY 1009 /* recommended quality level for high-res use */
-long ran_arr_buf[QUALITY];
-long ran_arr_dummy = -1, ran_arr_started = -1;
-long * ran_arr_ptr = &ran_arr_dummy; /* the next random number, or -1 */
+static _Thread_local long ran_arr_buf[QUALITY];
+static _Thread_local long ran_arr_dummy = -1, ran_arr_started = -1;
+static _Thread_local long * ran_arr_ptr = 0; /* the next random number, or -1 */
 
 #define TT  70   /* guaranteed separation between streams */
 #define is_odd(x)  ((x)&1)          /* units bit of x */
@@ -169,5 +169,16 @@ static int main() {
 
 
 long ran_num_next(void) {
+	if (ran_arr_ptr == 0) {
+		ran_arr_ptr = &ran_arr_dummy;
+	}
+
 	return ran_arr_next();
+}
+
+
+/// Restart the predictable sequence (called at the start of each export so
+/// that output does not depend on earlier conversions)
+void ran_num_reset(void) {
+	ran_arr_ptr = &ran_arr_dummy;
 }
